@@ -11,6 +11,9 @@ TInit == l = 1 /\ npairs = 0
 \* afterwards every key is found by get and the scan lists each exactly once
 TSplit == /\ l <= Len(Log) /\ l' = l + 1 /\ npairs' = npairs + 1 /\ E.op = "split"
           /\ Ev(E.split /\ E.left = TupLess(T(E.t), T(E.e)) /\ E.getok /\ E.total = 16)
+\* side decision of an interior split whose middle pivot e is pushed up: the child for pivot t goes to the left half iff t < e
+TISplit == /\ l <= Len(Log) /\ l' = l + 1 /\ npairs' = npairs + 1 /\ E.op = "isplit"
+           /\ Ev(E.ok /\ E.pivotok /\ E.left = TupLess(T(E.t), T(E.e)) /\ E.right = ~TupLess(T(E.t), T(E.e)))
 TStep == /\ l <= Len(Log) /\ l' = l + 1 /\ npairs' = npairs + 1 /\ E.op = "pair"
          /\ LET t == T(E.t) e == T(E.e) less == TupLess(t, e) same == t = e IN
             Ev(/\ E.kt_less = less /\ E.kt_greater = TupLess(e, t) /\ E.kt_eq = same
@@ -19,7 +22,7 @@ TStep == /\ l <= Len(Log) /\ l' = l + 1 /\ npairs' = npairs + 1 /\ E.op = "pair"
                /\ (e.l > 0 => E.route_left = less)
                /\ (e.l > 0 /\ t.l > 0 /\ ~same => E.ins_before = less /\ E.ins_shape)
                /\ (~same => E.sorted_n = 2 /\ E.sorted_first = (IF less THEN 0 ELSE 1)))
-TSpec == TInit /\ [][TStep \/ TSplit]_<<l, npairs>>
+TSpec == TInit /\ [][TStep \/ TSplit \/ TISplit]_<<l, npairs>>
 TView == l
 Accepted == TLCGet("stats").diameter - 1 = Len(Log)
 ====
